@@ -92,6 +92,10 @@ Ltac norm_in H :=
 Ltac norm_goal :=
   repeat first [ rewrite slice_slice by sl_side | rewrite slice_length by sl_side ].
 
+(* unary arithmetic on offsets up to 1226 must not be unfolded by conversion
+   while the nested slices are normalised (lia does not need it) *)
+Local Opaque Nat.add Nat.sub Nat.mul.
+
 Theorem parse_layout raw q : parse raw = Ok q -> q = layout_quote raw.
 Proof.
   intro H. unfold parse in H.
@@ -111,6 +115,9 @@ Proof.
   apply parse_qercd_fields in Hqe as (Lq & r & Hr & ->).
   apply parse_report_fields in Hr. subst r.
   norm_in Lq.
+  (* the check of the parsed message is not needed any more; it is a huge term
+     that every arithmetic side condition would otherwise have to scan *)
+  repeat match goal with Hk : check_quote _ = _ |- _ => clear Hk end.
   unfold layout_quote. fold sds. norm_goal.
-  cbn [Nat.add]. arith_eq.
+  arith_eq.
 Qed.
